@@ -362,38 +362,48 @@ class C12(core.Check):
             scs.append({"name": "write-zstd-auto-big", "kind": "write", "cfg": {"comp": 2, "level": 1}, "seg": [65536], "D": core.b64(D * 4)})
             scs.append({"name": "write-none-uncomp", "kind": "write", "cfg": {"comp": 0, "uncomp": True, "chunk_hash": 1}, "seg": [1000, "e"], "D": core.b64(Dsmall)})
         # files for the reader-side scenarios
-        pieces = [gen.content("text", n, i) for i, n in enumerate([3000, 40000, 100, 7000])]
-        for comp in ((0, 2) if not q else (2,)):
-            B = zckref.make_file(pieces, comp_type=comp, dict_bytes=dict_b, chunk_hash_type=3)
+        variants = [([3000, 40000, 100, 7000], 3, False, "")]
+        if not q:
+            # thorough: the same scenario families over differently shaped files (more / larger / single chunks, other checksum types,
+            # uncompressed-source flag, no dictionary), so that every fault point exists at other buffer and chunk alignments too
+            variants += [([32768, 32769, 1, 65536, 5], 1, False, "-v1"), ([200000], 2, False, "-v2"), ([900, 1000, 1100, 1200, 1300, 1400, 1500, 1600], 0, False, "-v3"),
+                         ([5000, 33000, 70], 1, True, "-v4")]
+        for sizes_, cht_, uncomp_, vtag in variants:
+          pieces = [gen.content("text", n, i) for i, n in enumerate(sizes_)]
+          for comp in ((0, 2) if not q else (2,)):
+            vdict = b"" if (uncomp_ or vtag == "-v3") else dict_b
+            B = zckref.make_file(pieces, comp_type=comp, dict_bytes=vdict, chunk_hash_type=cht_, uncomp=uncomp_)
             v = zckref.decode(B)
-            base = {"B": core.b64(B), "D": core.b64(v.content), "dict": core.b64(dict_b), "pieces": [core.b64(x) for x in v.pieces]}
-            scs.append(dict(base, name="read-c%d" % comp, kind="read", sizes=[4096]))
-            scs.append(dict(base, name="read1-c%d" % comp, kind="read", sizes=[1, 70000]))
+            base = {"B": core.b64(B), "D": core.b64(v.content), "dict": core.b64(vdict), "pieces": [core.b64(x) for x in v.pieces]}
+            comp = "%d%s" % (comp, vtag)
+            scs.append(dict(base, name="read-c%s" % comp, kind="read", sizes=[4096]))
+            scs.append(dict(base, name="read1-c%s" % comp, kind="read", sizes=[1, 70000]))
             for k in ("vc", "vd", "fv"):
-                scs.append(dict(base, name="%s-c%d" % (k, comp), kind=k))
-            scs.append(dict(base, name="chunkdata-c%d" % comp, kind="chunkdata", chunks=[2, 0, 4, 1, 2]))
+                scs.append(dict(base, name="%s-c%s" % (k, comp), kind=k))
+            scs.append(dict(base, name="chunkdata-c%s" % comp, kind="chunkdata", chunks=[x % (len(pieces) + 1) for x in [2, 0, 4, 1, 2]]))
             # copy / update: A shares pieces 0 and 2
-            A = zckref.make_file([pieces[0], b"other" * 50, pieces[2]], comp_type=comp, dict_bytes=dict_b, chunk_hash_type=3)
+            A = zckref.make_file([pieces[0], b"other" * 50, pieces[min(2, len(pieces) - 1)]], comp_type=int(comp[0]), dict_bytes=vdict, chunk_hash_type=cht_, uncomp=uncomp_)
             p = zckref.parse(B)
             T = bytearray(B)
             for c in p.chunks[1:]:
                 a = p.header_len + c["start"]
                 T[a:a + c["comp_len"]] = bytes(c["comp_len"])
-            scs.append(dict(base, name="copy-c%d" % comp, kind="copy", A=core.b64(A), T=core.b64(bytes(T))))
-            scs.append(dict(base, name="update-c%d" % comp, kind="update", A=core.b64(A), T=None, limit=2, style=0, frag="n:16384"))
+            scs.append(dict(base, name="copy-c%s" % comp, kind="copy", A=core.b64(A), T=core.b64(bytes(T))))
+            scs.append(dict(base, name="update-c%s" % comp, kind="update", A=core.b64(A), T=None, limit=2, style=0, frag="n:16384"))
             if not q:
-                scs.append(dict(base, name="update-mp-c%d" % comp, kind="update", A=core.b64(A), T=core.b64(bytes(T[: len(T) // 2])), limit=-1, style=4, frag="rand:7:5000"))
+                scs.append(dict(base, name="update-mp-c%s" % comp, kind="update", A=core.b64(A), T=core.b64(bytes(T[: len(T) // 2])), limit=-1, style=4, frag="rand:7:5000"))
             # tools
-            scs.append(dict(base, name="t-unzck-c%d" % comp, kind="t-unzck"))
-            scs.append(dict(base, name="t-unzck-c-c%d" % comp, kind="t-unzck-c"))
-            scs.append(dict(base, name="t-unzck-dict-c%d" % comp, kind="t-unzck-dict"))
-            scs.append(dict(base, name="t-read_header-f-c%d" % comp, kind="t-read_header-f"))
-            scs.append(dict(base, name="t-unzck-header-c%d" % comp, kind="t-unzck-header"))
-            wd = os.path.join(ctx["www"], "c12-c%d" % comp)
+            scs.append(dict(base, name="t-unzck-c%s" % comp, kind="t-unzck"))
+            scs.append(dict(base, name="t-unzck-c-c%s" % comp, kind="t-unzck-c"))
+            if vdict:
+                scs.append(dict(base, name="t-unzck-dict-c%s" % comp, kind="t-unzck-dict"))
+            scs.append(dict(base, name="t-read_header-f-c%s" % comp, kind="t-read_header-f"))
+            scs.append(dict(base, name="t-unzck-header-c%s" % comp, kind="t-unzck-header"))
+            wd = os.path.join(ctx["www"], "c12-c%s" % comp)
             os.makedirs(wd, exist_ok=True)
             open(os.path.join(wd, "tgt.zck"), "wb").write(B)
-            scs.append(dict(base, name="t-zckdl-c%d" % comp, kind="t-zckdl", A=core.b64(A), T=core.b64(bytes(T[: len(T) * 2 // 3])),
-                            url="http://127.0.0.1:%d/~maxr=2/c12-c%d/tgt.zck" % (ctx["port"], comp)))
+            scs.append(dict(base, name="t-zckdl-c%s" % comp, kind="t-zckdl", A=core.b64(A), T=core.b64(bytes(T[: len(T) * 2 // 3])),
+                            url="http://127.0.0.1:%d/~maxr=2/c12-c%s/tgt.zck" % (ctx["port"], comp)))
         scs.append({"name": "t-zck-default", "kind": "t-zck", "args": [], "D": core.b64(D)})
         scs.append({"name": "t-zck-split", "kind": "t-zck", "args": ["-m", "-s", "</text:p>"], "D": core.b64(D)})
         if not q:
